@@ -2,6 +2,7 @@
 from __future__ import annotations
 
 import itertools
+import dataclasses
 import sys
 import types
 import typing
@@ -29,8 +30,8 @@ ASSUMPTIONS = [
 ]
 EXHAUSTIVE = {"quick": False, "thorough": True}
 PLAN = {"quick": dict(depth2=5000, depth3=0), "thorough": dict(depth2=None, depth3=60000)}
-FLOORS = {"quick": {"annotations_built": 5000, "passthrough_probes": 120, "rebuild_fingerprints": 5000, "leaf_kinds": 47, "constructors": 22, "generic_class_probes": 60},
-          "thorough": {"annotations_built": 60000, "passthrough_probes": 120, "rebuild_fingerprints": 60000, "leaf_kinds": 47, "constructors": 22, "generic_class_probes": 80}}
+FLOORS = {"quick": {"annotations_built": 5000, "passthrough_probes": 120, "rebuild_fingerprints": 5000, "leaf_kinds": 47, "constructors": 23, "generic_class_probes": 60},
+          "thorough": {"annotations_built": 60000, "passthrough_probes": 120, "rebuild_fingerprints": 60000, "leaf_kinds": 47, "constructors": 23, "generic_class_probes": 80}}
 
 MOD = "vtot_ns"
 SRC = '''
@@ -81,7 +82,7 @@ CTORS = {
     "typing.Sequence": "typing.Sequence[{}]", "typing.Mapping": "typing.Mapping[str, {}]", "deque": "collections.deque[{}]",
     "abc.Mapping": "collections.abc.Mapping[str, {}]", "typing.Dict": "typing.Dict[str, {}]", "typing.Tuple": "typing.Tuple[{}, ...]",
     "newtype": None, "alias": None, "Final": "typing.Final[{}]", "ClassVar": "typing.ClassVar[{}]",
-    "dcfield": None, "ntfield": None, "tdfield": None, "two_variadic": None, "Box": "Box[{}]",
+    "dcfield": None, "ntfield": None, "tdfield": None, "two_variadic": None, "two_fixed": None, "Box": "Box[{}]",
 }
 PROBES = [1, "1", "[1]", None, {"a": 1}, [1, 2], "x", b"1", 2.5, {"x": 3}, ["a"], True]
 _N = [0]
@@ -112,7 +113,7 @@ def apply(ctor, inner_src, ns):
             obj = typing.TypeAliasType(name, eval(inner_src, ns.__dict__))
             setattr(ns, name, obj)
             return name, obj
-        if ctor in ("dcfield", "ntfield", "tdfield", "two_variadic"):
+        if ctor in ("dcfield", "ntfield", "tdfield", "two_variadic", "two_fixed"):
             name = f"C{n}"
             if ctor == "dcfield":
                 src = f"@dataclasses.dataclass\nclass {name}:\n    f: {inner_src}\n"
@@ -120,6 +121,10 @@ def apply(ctor, inner_src, ns):
                 src = f"class {name}(typing.NamedTuple):\n    f: {inner_src}\n"
             elif ctor == "tdfield":
                 src = f"class {name}(typing.TypedDict):\n    f: {inner_src}\n"
+            elif ctor == "two_fixed":
+                # one fixed tuple type used several times in a class (directly and inside a list)
+                src = (f"@dataclasses.dataclass\nclass {name}:\n    a: tuple[{inner_src}, {inner_src}]\n    b: list[tuple[{inner_src}, {inner_src}]]\n"
+                       f"    c: tuple[{inner_src}, {inner_src}]\n")
             else:
                 src = f"@dataclasses.dataclass\nclass {name}:\n    a: tuple[{inner_src}, ...]\n    b: tuple[int, ...]\n    c: tuple[{inner_src}, ...]\n"
             exec(compile(src, f"/verif/out/generated/{MOD}_{name}.py", "exec"), ns.__dict__)
@@ -156,16 +161,19 @@ def passthrough_probe(sh, ctor, leaf, src, T):
              "tuplefix": (sentinel, 1), "dict": {"k": sentinel}, "typing.Dict": {"k": sentinel}, "typing.Mapping": {"k": sentinel},
              "abc.Mapping": {"k": sentinel}, "Optional": sentinel, "pipe": sentinel, "deque": [sentinel], "dcfield": {"f": sentinel},
              "ntfield": {"f": sentinel}, "tdfield": {"f": sentinel}, "newtype": sentinel, "alias": sentinel, "Final": sentinel, "ClassVar": sentinel,
-             "<root>": sentinel}.get(ctor)
+             "<root>": sentinel, "two_fixed": {"a": (sentinel, sentinel), "b": [(sentinel, sentinel)], "c": (sentinel, sentinel)}}.get(ctor)
     if shape is None:
         return
     sh.count("passthrough_probes")
     for direction, fn in (("unmarshal", lambda x: typelib.unmarshal(T, x)), ("marshal", lambda x: typelib.marshal(x, t=T))):
         if direction == "marshal" and ctor in ("dcfield", "ntfield"):
             continue
+        arg = shape
+        if direction == "marshal" and ctor == "two_fixed":
+            arg = T(**shape)  # an instance: the routines are called for the first time on it
         try:
             with quiet():
-                r = fn(shape)
+                r = fn(arg)
         except Exception as e:  # noqa: BLE001
             sh.violation("passthrough-raised", annotation=src, direction=direction, exc=type(e).__name__, detail=str(e)[:200])
             continue
@@ -181,6 +189,8 @@ def passthrough_probe(sh, ctor, leaf, src, T):
                 return any(find(v, depth + 1) for v in o)
             if hasattr(o, "f"):
                 return find(o.f, depth + 1)
+            if dataclasses.is_dataclass(o) and not isinstance(o, type):
+                return any(find(getattr(o, f_.name), depth + 1) for f_ in dataclasses.fields(o))
             return False
 
         if not find(r):
